@@ -180,7 +180,7 @@ type StructureField struct {
 }
 
 func NewStructureField(p specification.SchemaProperty, components Componenter, cfg Config) (zero StructureField, _ Imports, _ error) {
-	schema, ims, err := NewSchema(p.Schema, NamedComponenter{components, p.Name}, cfg)
+	schema, ims, err := NewSchema(p.Schema, NamedComponenter{components, PublicFieldName(p.Name)}, cfg)
 	if err != nil {
 		return zero, nil, fmt.Errorf("new schema: %w", err)
 	}
